@@ -854,6 +854,12 @@ func (g *srvGen) next() ([]byte, []arpResp, *simClient, byte) {
 			}
 		}
 	}
+	if g.r2 != nil && len(c.dns) >= 40 && g.r2.Intn(2) == 0 {
+		// the replies of this configuration are longer than the smallest legal maximum message size: a client that names one
+		// between 576 and the size of the reply still gets every configured option
+		v := 576 + g.r2.Intn(220)
+		m.setOpt(57, []byte{byte(v >> 8), byte(v)})
+	}
 	if g.r2 != nil && kind == 3 && src != 0 && g.r2.Intn(6) == 0 {
 		// a renewal / rebinding whose ciaddr is not the address it comes from (a multi-homed or confused client): what counts is the
 		// IP source; the reply goes to the assigned address (or to broadcast), never to whatever ciaddr says
